@@ -75,6 +75,19 @@ func genC06(t *rapid.T) any {
 		}
 		f.Tree = append(f.Tree, mk.Entry{Path: path.Join(p, "deep.txt"), Kind: mk.KFile, Data: mk.Content{Seed: 77, Len: 333}})
 	}
+	if rapid.IntRange(0, 7).Draw(t, "manyDirs") == 0 {
+		// dozens of directories with long names: the path tables (one record per directory, the Joliet one with
+		// two bytes per character) grow past one sector
+		nd := rapid.SampledFrom([]int{35, 60, 100}).Draw(t, "manyDirsN")
+		nl := rapid.SampledFrom([]int{8, 30, 40}).Draw(t, "manyDirsNameLen")
+		for i := 0; i < nd; i++ {
+			dn := fmt.Sprintf("directory-%03d-%s", i, strings.Repeat("x", nl))
+			f.Tree = append(f.Tree, mk.Entry{Path: dn, Kind: mk.KDir})
+			if i%7 == 0 {
+				f.Tree = append(f.Tree, mk.Entry{Path: dn + "/inside.txt", Kind: mk.KFile, Data: mk.Content{Seed: uint32(900 + i), Len: 10 + i}})
+			}
+		}
+	}
 	f.Tree = dedupeTree(f.Tree)
 	for i := range f.Tree {
 		if f.Tree[i].Kind == mk.KLink {
